@@ -390,7 +390,17 @@ class G:
             ded = (self.ch(cparts) + "| ") if self.pr("dedicated", 0.25) and not cparts[0].startswith("(") else ""
             if "(" in ded:
                 ded = ""
-            attrs.append(Instr("where_clause", ded + self.ch(["T: Clone", "T: Into<U>, U: Default", "'a: 'b", "Vec<T>: Sized"]), tag=("where", None)))
+            wcs = ["T: Clone", "T: Into<U>, U: Default", "'a: 'b", "Vec<T>: Sized", "T: Default", "U: Copy + 'static"]
+            attrs.append(Instr("where_clause", ded + self.ch(wcs), tag=("where", None)))
+            if self.pr("second_where", 0.5):
+                # a default and a dedicated clause side by side, in either order
+                c = self.ch(cparts)
+                other = "" if ded else ((c + "| ") if not c.startswith("(") else "")
+                w2 = Instr("where_clause", other + self.ch(wcs), tag=("where", None))
+                if self.pr("x", 0.5):
+                    attrs.append(w2)
+                else:
+                    attrs.insert(len(attrs) - 1, w2)
         if self.pr("ghosts", 0.08):
             ded = (self.ch(cparts) + "| ") if self.pr("dedicated", 0.25) else ""
             if "(" in ded:
@@ -398,6 +408,14 @@ class G:
             nm = "ghosts" if not self.pr("ghost_flavour", 0.3) else self.ch(["ghosts_owned", "ghosts_ref"])
             gs = ", ".join(f"{self.ch(OTHER + ['0', '1'])}: {{ {self.ch(['1', '@.a', 'Default::default()', '@.x.clone()'])} }}" for _ in range(r.randrange(1, 3)))
             attrs.append(Instr(nm, ded + gs, tag=("ghosts", None)))
+            if self.pr("second_ghosts", 0.4):
+                c = self.ch(cparts)
+                other = "" if ded else ((c + "| ") if not c.startswith("(") else "")
+                g2 = Instr(self.ch(["ghosts", nm]), other + f"{self.ch(OTHER)}: {{ 2 }}", tag=("ghosts", None))
+                if self.pr("x", 0.5):
+                    attrs.append(g2)
+                else:
+                    attrs.insert(len(attrs) - 1, g2)
         fields = []
         for k in range(nf):
             fields.append(Field(NAMES[k % len(NAMES)] if shape == "named" else None, self.ch(TYPES),
@@ -538,6 +556,14 @@ class G:
             keep = [pth for pth in used_prefixes if not self.pr("drop_cp_entry", 0.03)]
             ded = (self.ch(cparts) + "| ") if self.pr("dedicated", 0.25) else ""
             attrs.append(Instr("child_parents", ded + ", ".join(".".join(pth) + ": " + self.ch(["P", "m::Q", "R<T>"]) + self.ch(["", "", " as {}", " as ()"]) for pth in keep), tag=("cp", None)))
+            if self.pr("second_cp", 0.3):
+                c = self.ch(cparts)
+                other = "" if ded else (c + "| ")
+                cp2 = Instr("child_parents", other + ", ".join(".".join(pth) + ": " + self.ch(["P2", "m::Q2"]) for pth in keep), tag=("cp", None))
+                if self.pr("x", 0.5):
+                    attrs.append(cp2)
+                else:
+                    attrs.insert(len(attrs) - 1, cp2)
         if self.pr("ghosts", 0.15) and used_prefixes:
             pth = self.ch(used_prefixes)
             attrs.append(Instr(self.ch(["ghosts", "ghosts_owned"]), ".".join(pth) + "@" + self.ch(["gx", "0"]) + ": { 7 }" + (", top: { 1 }" if self.pr("x", 0.3) else ""), tag=("ghosts", None)))
